@@ -1,5 +1,6 @@
 """C16 — without layout tables, glyphs and positions are the font's cmap and metrics; axis discipline."""
 import vlib, corpus
+import fontbuild
 import _pipeline as P
 
 MODULE = "RbModel.Props.C16"
@@ -102,8 +103,31 @@ def wrap16(x):
     return (x + 32768) % 65536 - 32768
 
 
-def py_font(rec):
-    subs = [(p, e, P.sub_semantics(fmt, pairs)) for p, e, fmt, pairs in rec["subs"]]
+def fb_semantics(fmt, pairs):
+    """what ttf-parser returns for a subtable written by tools/fontbuild.py (format 4 there is delta-only)"""
+    d = dict(pairs)
+    if fmt == 0:
+        return {c: g & 0xFF for c, g in d.items() if g & 0xFF}
+    if fmt == 6:
+        return {c: d.get(c, 0) for c in range(min(d), max(d) + 1)}
+    if fmt == 4:
+        d = {c: g for c, g in d.items() if c <= 0xFFFF}
+        d.setdefault(0xFFFF, 0)
+    return d
+
+
+def fb_recipe(rec):
+    r = dict(num_glyphs=rec["ng"], upem=rec["upem"], ascender=rec["asc"], descender=rec["desc"],
+             advances=rec["hadv"],
+             cmap_subtables=[dict(platform=p, encoding=e, format=fmt, map=dict(pairs)) for p, e, fmt, pairs in rec["subs"]])
+    if rec["vadv"] is not None: r["vadvances"] = rec["vadv"]
+    if rec["vorg"] is not None: r["vorg"] = {"default": rec["vorg"][0], "glyphs": rec["vorg"][1]}
+    return r
+
+
+def py_font(rec, sem=None):
+    sem = sem or P.sub_semantics
+    subs = [(p, e, sem(fmt, pairs)) for p, e, fmt, pairs in rec["subs"]]
     best = None
     for pe in P.PREF:
         for i, (p, e, _) in enumerate(subs):
@@ -137,8 +161,17 @@ def default_search(ctx, shim, chars, r, n):
     lines, exp = [], []
     for _ in range(n):
         rec = P.rand_recipe(r, letters, allow_mac=False, allow_symbol=r.chance(1, 6))
-        nominal, hadv, vadv, vorg = py_font(rec)
-        ft = P.font_tokens(rec)
+        # every other font is serialised by the shared tools/fontbuild.py instead of this core's own builder
+        use_fb = r.chance(1, 2)
+        if use_fb:
+            for i, (p_, e_, fmt_, pairs_) in enumerate(rec["subs"]):
+                if fmt_ == 4:   # fontbuild's format 4 cannot hold U+FFFF mappings of its own
+                    rec["subs"][i] = (p_, e_, fmt_, [(c, g) for c, g in pairs_ if c < 0xFFFF])
+            nominal, hadv, vadv, vorg = py_font(rec, fb_semantics)
+            ft = fontbuild.hexfont(fb_recipe(rec)) + " -"
+        else:
+            nominal, hadv, vadv, vorg = py_font(rec)
+            ft = P.font_tokens(rec)
         have = [c for c in letters if nominal(c) is not None]
         if not have:
             continue
@@ -247,11 +280,15 @@ def run(ctx):
     shim = vlib.build_harness()
     chars = P.Chars(shim)
     chars.load(LETTERS + MIRROR + VERT + SPACES + CONT + MARKS0 + DI + MAC + [0x25CC])
-    ctx.correspond("cmap-metrics", lines=cmap_lines(ctx.rng("cmap"), ctx.budget(1500, 40000)), classify=classify_cmap)
-    ctx.correspond("pipeline-shape", lines=shape_lines(ctx.rng("shape"), chars, ctx.budget(600, 13000)),
+    P.correspond(ctx, "cmap-metrics", cmap_lines(ctx.rng("cmap"), ctx.budget(1500, 40000)), classify=classify_cmap)
+    P.correspond(ctx, "pipeline-shape", shape_lines(ctx.rng("shape"), chars, ctx.budget(600, 13000)),
                    classify=classify_shape)
     default_search(ctx, shim, chars, ctx.rng("default"), ctx.budget(500, 12000))
     corpus_monitors(ctx, shim, ctx.rng("corpus"), ctx.budget(300, 2128))
+    if ctx.broken and any(v[2] for v in ctx.violations):
+        ctx.violation("proof or correspondence no longer checks: " +
+                      ", ".join(str(b.get("module") or b.get("stream")) for b in ctx.broken),
+                      {"stage": "prove/correspond", "broken": ctx.broken}, found_input=False)
 
 
 def replay(ctx, rp):
